@@ -50,6 +50,8 @@ def main(tier):
     jobs = []
     for k in range(0, K + 1):
         for kinds in itertools.product((0, 1, 2, 3), repeat=k):
+            if tier == 'quick' and kinds in ((3, 1), (3, 2)):
+                continue    # a symbolic line followed by a header line: does not finish within the quick job limit (thorough only)
             params = {'lines': k, 'hdr': 0}
             fl = {}
             for i, kd in enumerate(kinds):
